@@ -20,5 +20,9 @@ print(\"$own\" if \"$own\" in det else det[0])")
   if ! (cd $w && git apply --whitespace=nowarn '"$PWD"'/$d/patch.diff 2>/dev/null || patch -p1 -s < '"$PWD"'/$d/patch.diff >/dev/null 2>&1); then echo "$d: not applicable (patch does not apply to this tree)"; rm -rf $w; exit 0; fi
   out=$(VERIF_REPO=$w ./check $id quick 2>&1); rc=$?
   rm -rf $w
-  if [ $rc -eq 1 ]; then echo "$d: caught by $id"; else echo "$d: MISSED by $id rc=$rc $(echo "$out" | tail -1 | cut -c1-120)"; fi
+  known_uncaught=$(python3 -c "
+import json
+m=json.load(open(\"$d/meta.json\"))
+print(1 if m.get(\"detected_by_quick_checks\") == [] else 0)")
+  if [ $rc -eq 1 ]; then echo "$d: caught by $id"; elif [ "$known_uncaught" = 1 ]; then echo "$d: not caught (recorded as outside what the property states, see meta.json)"; else echo "$d: MISSED by $id rc=$rc $(echo "$out" | tail -1 | cut -c1-120)"; fi
 '
